@@ -38,6 +38,7 @@ struct LocalNetwork {
 
 int gv_exc;                         /* exception in flight (rule R11) */
 struct LocalNetwork *gv_net;        /* ghost: the network whose solver the AdjBase stubs belong to */
+int gv_obs_index;                   /* ghost: an observation index the caller promises to be valid in the ADJUSTED network */
 int gv_defect;                      /* ghost: the value AdjBase::defect() reports for the current adjustment */
 
 /* validity chain: a stage is valid only if every stage it consumes is valid
@@ -107,6 +108,14 @@ __CPROVER_ensures(__CPROVER_old(self->tst_vyrovnani_) ==>
                    self->pocmer_ == __CPROVER_old(self->pocmer_) && self->r.rep == __CPROVER_old(self->r.rep) &&
                    self->sigma_L.rep == __CPROVER_old(self->sigma_L.rep) && self->vahkopr.rep == __CPROVER_old(self->vahkopr.rep)))
 __CPROVER_ensures(gv_exc == 0 ==> (self->tst_vyrovnani_ && self->tst_rov_opr_ && self->tst_redmer_ && self->tst_redbod_))
+/* caller-side promise (stdev_obs / wcoef_res take an observation index of the adjusted network) and validity of the
+   recomputed result vectors */
+__CPROVER_ensures(gv_exc == 0 ==> gv_obs_index <= self->pocmer_)
+__CPROVER_ensures((gv_exc == 0 && !__CPROVER_old(self->tst_vyrovnani_)) ==>
+                  (self->pocmer_ >= 0 && self->pocmer_ <= 10000000 &&
+                   __CPROVER_is_fresh(self->r.rep, (size_t)self->pocmer_ * sizeof(Float)) &&
+                   __CPROVER_is_fresh(self->sigma_L.rep, (size_t)self->pocmer_ * sizeof(Float)) &&
+                   __CPROVER_is_fresh(self->vahkopr.rep, (size_t)self->pocmer_ * sizeof(Float))))
 ;
 
 /* ---- ASSUMED contracts of the virtual interface AdjBase (solver side is verified by the solver units) ----
